@@ -34,6 +34,7 @@ type World struct {
 	noHeap    map[string]bool
 	LoadErrs  []string
 	specLits  []string
+	mutGlobals map[*ssa.Global]bool
 }
 
 func LoadWorld(repo string, patterns []string, verifDir string) (*World, error) {
@@ -455,6 +456,9 @@ func (w *World) SpecConst(env *Env, name string) (Val, bool) {
 	case *types.Var:
 		if sp := w.SSAPkgs[env.pkg.Path()]; sp != nil {
 			if g, ok := sp.Members[name].(*ssa.Global); ok {
+				if w.ImmutableGlobal(g) {
+					return Val{T: w.GlobalConst(g), Ty: g.Type().Underlying().(*types.Pointer).Elem()}, true
+				}
 				gv := env.e.val(g)
 				return env.deref(gv), true
 			}
@@ -582,4 +586,73 @@ func (w *World) newLemmaEnc() *FnEnc {
 	e.curGuard = "true"
 	e.ghosts = map[string]HeapVar{}
 	return e
+}
+
+// ImmutableGlobal: a package-level variable that no function other than its package initialiser stores to
+// (checked for the packages of this module by scanning every Store; assumed for other packages: A12).
+func (w *World) ImmutableGlobal(g *ssa.Global) bool {
+	if g.Pkg == nil || !strings.HasPrefix(g.Pkg.Pkg.Path(), ModulePath) {
+		return true
+	}
+	if w.mutGlobals == nil {
+		w.mutGlobals = map[*ssa.Global]bool{}
+		for path, sp := range w.SSAPkgs {
+			if !strings.HasPrefix(path, ModulePath) {
+				continue
+			}
+			var scan func(f *ssa.Function)
+			scan = func(f *ssa.Function) {
+				if f.Name() == "init" && f.Parent() == nil {
+					return
+				}
+				for _, b := range f.Blocks {
+					for _, in := range b.Instrs {
+						var addr ssa.Value
+						switch x := in.(type) {
+						case *ssa.Store:
+							addr = x.Addr
+						case *ssa.MapUpdate:
+							continue
+						default:
+							continue
+						}
+						for {
+							if fa, ok := addr.(*ssa.FieldAddr); ok {
+								addr = fa.X
+								continue
+							}
+							if ia, ok := addr.(*ssa.IndexAddr); ok {
+								addr = ia.X
+								continue
+							}
+							break
+						}
+						if gg, ok := addr.(*ssa.Global); ok {
+							w.mutGlobals[gg] = true
+						}
+					}
+				}
+				for _, a := range f.AnonFuncs {
+					scan(a)
+				}
+			}
+			for _, f := range w.funcsByKey {
+				if w.pkgPathOf(f) == path && f.Parent() == nil {
+					scan(f)
+				}
+			}
+			_ = sp
+		}
+	}
+	return !w.mutGlobals[g]
+}
+
+func (w *World) GlobalConst(g *ssa.Global) string {
+	pt := g.Type().Underlying().(*types.Pointer)
+	name := "glob." + mangle(g.Pkg.Pkg.Path()+"."+g.Name())
+	if _, ok := w.ufs[name]; !ok {
+		w.ufs[name] = fmt.Sprintf("(declare-fun %s () %s)", name, w.Sorts.SortOf(pt.Elem()))
+		w.ufOrder = append(w.ufOrder, name)
+	}
+	return name
 }
